@@ -15,14 +15,15 @@ SPEC = {
     "modules": ["HC.Props.C07", "HC.Props.C03"],
     "extracted": ["ConnGuards"],
     "technique": "Lean 4 invariants of the timed connection model (virtual clock, single restartable timer slot, deadline = start + keep_alive_timeout, time cannot pass an armed deadline) proved for all operation sequences and all timeout values; tied by trace acceptance of the real TCPServer under virtual time on both workers (exact close / completion instants), monitors on the implementation's timestamps, and Updated(idle=..) call sites / timer wiring regenerated from the AST",
-    "level_text": "Proved for every configuration and operation sequence: while the idle timer is armed no request is in progress and no WebSocket is open (so the timer never closes a busy connection); an armed deadline is exactly (start of idleness) + keep_alive_timeout and virtual time cannot pass it; on a connection without streams the expiry step is enabled exactly at the deadline (at once during shutdown, when no time may pass first) and closes the transport at that instant; bytes that do not complete a head leave timer and deadline untouched; the end of an HTTP/1 response restarts the timer whatever the parser still holds (recycle_restarts_idle_timer; the Updated(idle=True) of _maybe_recycle is an unconditional statement of the recycle branch, extracted), so the beginning of a pipelined head that arrived while the response was pending does not keep the connection open; a reader waiting on a transport the server closed is never quiescent; on a prior-knowledge HTTP/2 connection the wrapper's Updated(idle=True) is processed while no stream exists and before the bytes behind the preface; a server-side close on trio releases a writer the peer keeps waiting, which then reports the closure; when reader, applications, closer tasks and timer have ended the handler exits at once with the transport closed.  Tie: pause at every point of 21 canonical histories and of the partial-pipelined-head family (the first bytes of the next head arrive before the current response is complete, cut at every point of the head, in a read of their own or in the first request's read) x {T-eps, T, T+eps} x T in {0.01, 1, 5, 3600} (quick: sampled) plus random histories, both workers, replayed by the model's acceptor and judged by monitors (busy/timer overlap, idle longer than T, exact expiry instant, release instant, live tasks).",
+    "level_text": "Proved for every configuration and operation sequence: while the idle timer is armed no request is in progress and no WebSocket is open (so the timer never closes a busy connection); an armed deadline is exactly (start of idleness) + keep_alive_timeout and virtual time cannot pass it; on a connection without streams the expiry step is enabled exactly at the deadline (at once during shutdown, when no time may pass first) and closes the transport at that instant - for every keep_alive_timeout >= 0, the wait of the idle task being the configured value itself on both workers (the expressions handed to asyncio.wait_for / trio.move_on_after are extracted: idle_wait_is_keep_alive_timeout, idle_closes_at_T), so that with a timeout of 0 an idle connection is closed at once (keep_alive_zero_closes_at_once); on HTTP/2 the end of a registered stream always ends with Updated(idle=..) whether or not the shutdown GOAWAY was written (extracted statement shape), so the last stream ending after shutdown began restarts the timer, which is then due at once (shutdown_last_stream_closes_at_once); bytes that do not complete a head leave timer and deadline untouched; the end of an HTTP/1 response restarts the timer whatever the parser still holds (recycle_restarts_idle_timer; the Updated(idle=True) of _maybe_recycle is an unconditional statement of the recycle branch, extracted), so the beginning of a pipelined head that arrived while the response was pending does not keep the connection open; a reader waiting on a transport the server closed is never quiescent; on a prior-knowledge HTTP/2 connection the wrapper's Updated(idle=True) is processed while no stream exists and before the bytes behind the preface; a server-side close on trio releases a writer the peer keeps waiting, which then reports the closure; when reader, applications, closer tasks and timer have ended the handler exits at once with the transport closed.  Tie: pause at every point of 30 canonical histories (for T <= 1 ms also with their first bytes already buffered when the connection is accepted) and of the partial-pipelined-head family (the first bytes of the next head arrive before the current response is complete, cut at every point of the head, in a read of their own or in the first request's read) x {T-eps, T, T+eps} x T in {0, 0.001, 0.01, 1, 5, 3600, 10^7} s (quick: sampled around a fixed core: every canonical history with T = 0, sent after the accept and already buffered at the accept under three seeds of trio's scheduler; shutdown beginning while a request / the last HTTP/2 stream / a WebSocket is in progress with a client that ignores the GOAWAY) plus random histories, both workers, replayed by the model's acceptor and judged by monitors (busy/timer overlap, idle longer than T, exact expiry instant, release instant, live tasks).",
     "level_note": "Trusted: Lean kernel; the model HC/Conn/Server.lean (tied by trace acceptance); virtual-time loops of the harness (asyncio SelectorEventLoop subclass, trio MockClock); the recording wrapper around context.terminated as the observation of the timer task; 'as soon as' = same virtual millisecond.  'released' is proved for the final step and for the reader noticing the close; that a parked reader is released is tied by the differential and by decided witnesses.",
     "rule": "canonical history x pause position x pause length x timeout x worker (+ random histories); distinct = each such cell; non-trivial = the pause is within 1 ms of the timeout or the peer leaves",
-    "trusted": ["harness virtual clocks", "RecordingEvent wrapper of context.terminated"],
+    "trusted": ["harness virtual clocks", "RecordingEvent wrapper of context.terminated", "trio's scheduler seeded per case (field `sched`)"],
     "partial": ["F08 (known): queue full and application gone: the handler never finishes",
                 "WebSocket over HTTP/2 is not modelled (HTTP/2 streams are HTTP)",
                 "cleartext HTTP/2: prior knowledge and the h2c upgrade (without request body) are generated and modelled; an h2c request the stream answers by itself during shutdown is not",
                 "transport back-pressure (peer not reading) is generated on HTTP/1 and WebSocket connections only",
+                "HTTP/2: bytes that had arrived before the server's own close and are handed to the reader after it (timeout 0 racing the first read on trio) are judged by the monitors only: what follows is a failed flush, and HTTP/2 flushes are not observed",
                 "F95 (known): the prior-knowledge preface restarts the idle timer; F96 (known): asyncio close() does not release a writer waiting in drain(); F97 (known): peer EOF while a write is held up closes nothing"],
     "assumptions": ["a stream whose disconnect was handed over (peer left / reset) no longer counts as a request in progress",
                     "peer loss counts from the instant the client acted; the handler must finish by max(that, last application return)"],
@@ -125,13 +126,18 @@ def monitor(ctx: Ctx, case: dict, sc: dict, an: dict) -> None:
         ctx.violation("handler_exception", case, {"error": an["error"], "loop": an["loop_errors"]}, {**sig0, "error": str(an["error"])})
 
 
+# keep_alive_timeout values: 0 (keep-alive disabled: an idle connection is closed at once), the smallest positive one the virtual
+# clocks resolve, ordinary ones, and one far beyond any history (115 days)
+TIMEOUTS = (0, 0.001, 0.01, 1, 5, 3600, 10 ** 7)
+
+
 def grid(ctx: Ctx) -> List[dict]:
     out = []
-    for T in (0.01, 1, 5, 3600):
+    for T in TIMEOUTS:
         for h in K.canonical(T):
             n = len(h["client"])
             for pos in range(n + 1):
-                for d in (max(T - EPS, 0), T, T + EPS):
+                for d in sorted({max(T - EPS, 0), T, T + EPS}):
                     for then in (None, "eof"):
                         c = K.with_pause({**h, "family": "canonical"}, pos, d, then)
                         c["key"] = [h["name"], pos, d, then, T]
@@ -142,9 +148,13 @@ def grid(ctx: Ctx) -> List[dict]:
 def gen(ctx: Ctx, n: int) -> List[dict]:
     cases = []
     for k in range(n):
-        T = ctx.rng.choice([0.01, 1, 5, 3600])
+        T = ctx.rng.choice([0.01, 1, 1, 5, 5, 3600, 0, 0.001, 10 ** 7])
         fam = ctx.rng.choice(["h1", "h1", "ws", "h2"])
-        sc = {"h1": K.gen_h1, "ws": K.gen_ws, "h2": K.gen_h2}[fam](ctx.rng, T)
+        sc = K.gen_h2(ctx.rng, T, shutdown=True) if fam == "h2" else {"h1": K.gen_h1, "ws": K.gen_ws}[fam](ctx.rng, T)
+        if T <= 0.001 and sc["client"] and sc["client"][0][0] in ("send", "h2req", "h2preface") and ctx.rng.random() < 0.7:
+            # with a timeout of (about) 0 a request is only served if it arrived with the connection
+            sc["preload"] = 1
+            sc["sched"] = ctx.rng.randrange(8)
         sc["family"] = fam
         sc["key"] = k
         cases.append(sc)
@@ -163,6 +173,16 @@ def run(ctx: Ctx) -> None:
         # being answered; every cut point, the two arrival variants alternating
         must += [c for c in g if c["key"][0].startswith("pipelined_partial_head") and c["key"][4] == 1 and c["key"][2] == 1 + EPS and c["key"][3] is None
                  and c["key"][1] == len(c["client"]) - 3 and (int(c["key"][0].split("@")[1]) % 2 == 0) == ("one_read" in c["key"][0])]
+        # … shutdown beginning while a request / the last HTTP/2 stream / a WebSocket is in progress (the pause behind the request)
+        must += [c for c in g if ("shutdown" in c["key"][0]) and c["key"][4] == 1 and c["key"][2] == 1 + EPS and c["key"][3] is None
+                 and c["key"][1] == len(c["client"]) - 3]
+        # … the boundary timeouts: keep-alive disabled (0) - every canonical history, sent after the accept and (what makes a
+        # difference then) with its first bytes already there at the accept - and the pause at the end of a few histories for 1 ms
+        # and for the very long timeout
+        must += [c for c in g if c["key"][4] == 0 and "@" not in c["key"][0] and c["key"][2] == EPS and c["key"][3] is None
+                 and c["key"][1] == len(c["client"]) - 3]
+        must += [c for c in g if c["key"][4] in (0.001, 10 ** 7) and c["key"][0] in ("nothing", "get", "h2_get", "get+preloaded", "h2_shutdown_inflight")
+                 and c["key"][2] == c["key"][4] + EPS and c["key"][3] is None and c["key"][1] == len(c["client"]) - 3]
         rest = [c for c in g if c not in must]
         ctx.rng.shuffle(rest)
         g = must + rest[:240]
